@@ -109,6 +109,59 @@ def direct_triples(cases):
     return fails
 
 
+class _Skip14(Exception):
+    pass
+
+
+def epochs_family(ld, r, count):
+    """one catching object iterated for several epochs above an input whose order changes per epoch (per-epoch reshuffle, a
+    reordering lazy apply): in EVERY epoch exactly the examples that raise a selected exception are dropped - nothing a previous
+    epoch saw (which positions failed) carries over"""
+    import numpy as np, warnings
+    fails = []
+    with warnings.catch_warnings():
+        warnings.simplefilter('ignore')
+        for _ in range(count):
+            n = r.randint(2, 9)
+            badset = set(x for x in range(n) if r.random() < 0.35)
+            keyed = r.random() < 0.4
+            exc = r.choice([_Skip14, KeyError, ld.FilterException])
+
+            def fn(v, badset=badset, exc=exc):
+                if v in badset:
+                    raise exc(v)
+                return v
+            seed = r.randint(0, 10 ** 6)
+            base = ld.new({f'key{i}': i for i in range(n)} if keyed else list(range(n)))
+            shape = r.choice(['map_reshuffle', 'reshuffle_map', 'lazyapply', 'reshuffle_map_prefetch1'])
+            sel = r.choice([exc, (exc, ValueError), Exception])
+            try:
+                if shape == 'map_reshuffle': d = base.map(fn).shuffle(True, rng=np.random.RandomState(seed)).catch(sel)
+                elif shape == 'reshuffle_map': d = base.shuffle(True, rng=np.random.RandomState(seed)).map(fn).catch(sel)
+                elif shape == 'lazyapply': d = base.map(fn).apply(_Reorder(seed), lazy=True).catch(sel)
+                else: d = base.shuffle(True, rng=np.random.RandomState(seed)).map(fn).prefetch(1, 2, catch_filter_exception=sel if sel is not Exception else (exc,))
+                want = sorted(set(range(n)) - badset)
+                for epoch in range(4):
+                    use_items = keyed and epoch % 2 == 1 and shape != 'lazyapply'
+                    got = [kv[1] for kv in d.items()] if use_items else list(d)
+                    if sorted(got) != want:
+                        fails.append(dict(kind='history', summary=f'{shape} over {n} examples ({"dict" if keyed else "list"} source), examples {sorted(badset)} raise {exc.__name__}, caught {sel}: '
+                                          f'epoch {epoch + 1} of the same catching object delivers {got}; exactly {want} (in some order) must survive'[:600], config=dict(n=n, bad=sorted(badset), shape=shape, seed=seed)))
+                        break
+            except Exception as e:
+                fails.append(dict(kind='history', summary=f'{shape} (n={n}, failing {sorted(badset)}, {exc.__name__} caught by {sel}) raised {type(e).__name__}: {e}'[:400], config=dict(n=n, shape=shape, seed=seed)))
+    return fails
+
+
+class _Reorder:
+    def __init__(self, seed):
+        import numpy as np
+        self.rng = np.random.RandomState(seed)
+
+    def __call__(self, ds):
+        return ds.shuffle(False, rng=self.rng)
+
+
 def run(tier):
     r = common.rng_for('C14')
     nodes = subset_nodes(r, 5 if tier == 'quick' else 6, 700 if tier == 'quick' else 6000)
@@ -122,10 +175,18 @@ def run(tier):
     for f in direct_triples(res.pop('cases')):
         f.setdefault('kind', 'program')
         res['failures'].append(f)
+    ne = 150 if tier == 'quick' else 2500
+    res['failures'] += epochs_family(common.import_impl(), common.rng_for('C14-epochs'), ne)
+    res['coverage']['multi_epoch_catch_histories'] = ne
     res['coverage']['failing_position_subsets'] = len(nodes)
     res['coverage']['filter_triples'] = len(trip) // 3
     return res
 
 
 def replay(payload):
+    if 'program' not in payload:
+        ff = epochs_family(common.import_impl(), common.rng_for('C14-epochs'), 150)
+        for f in ff[:3]:
+            print('  ', f['summary'][:300])
+        return bool(ff)
     return model_a.replay_a(payload)
